@@ -15,7 +15,7 @@ head1="$(head -5 "$SRC/demo.rs" | tr '\n' ' ') $(grep -i -m3 'cargo' "$SRC/READM
 TOOL=""; FEAT=""
 echo "$head1" | grep -q '+nightly' && TOOL="+nightly"
 FEAT="$(echo "$head1" | grep -o -- '--features[ =][A-Za-z0-9_,-]*' | head -1 | sed 's/--features[ =]//')"
-FEAT="${FEAT#,}"; FARG=""; [ -n "$FEAT" ] && FARG="--features $FEAT"
+FEAT="${FEAT#,}"; [ -n "${FEAT_OVERRIDE+x}" ] && FEAT="$FEAT_OVERRIDE"; FARG=""; [ -n "$FEAT" ] && FARG="--features $FEAT"
 run_demo() { cp "$SRC/demo.rs" tests/seed_demo.rs; timeout 900 cargo $TOOL test --offline $FARG --test seed_demo >"$WT/demo.log" 2>&1; local rc=$?; rm -f tests/seed_demo.rs; return $rc; }
 git apply --check "$SRC/patch.diff" || { echo "$ID: patch does not apply"; exit 1; }
 run_demo; base_rc=$?
